@@ -38,10 +38,10 @@ META = {
                   "clears alone change nothing; C02_vertices_3d: 2-D points are padded with 0 and 3-D points kept for every raw input "
                   "(containers, arrays, parsed files), other widths are left as they are; C02_corners_prefilled / "
                   "C02_face_corners_regenerated: corner containers pre-filled by the importers, or stale by count, end up as the "
-                  "records of the final faces / cells; C02_edges_nodup_if_declared_distinct / C02_side_once_if_declared_distinct: "
-                  "the whole edge list is duplicate-free under the NAMED GUARD that the surviving declared edges are pairwise "
-                  "distinct, and C02_edges_nodup_refuted shows it is false without it (known finding "
-                  "edge-list/duplicate-declared); C02_failed_prepare_left: a construction that raises leaves the raw data with every "
+                  "records of the final faces / cells; C02_edges_nodup / C02_edge_once / C02_side_once / C02_edges_members / "
+                  "C02_norm_edges: the whole final edge list is duplicate-free without any guard (an edge declared more than once "
+                  "is kept once, first declaration, with its attribute values), every edge and every valid face side occurs "
+                  "exactly once, and the list holds exactly the valid declared edges and the valid face sides; C02_failed_prepare_left: a construction that raises leaves the raw data with every "
                   "earlier step applied and cell_faces untouched (retry on the same object). Container independence (lists / tuples / numpy rows / append "
                   "/ from_arrays) has no counterpart in the model and is only tested: kernel-checked correspondence batches "
                   "compare every route with the one model answer, and the oracle compares the routes with each other "
@@ -314,7 +314,7 @@ def run(ctx):
                 ctx.count("%s=%s" % (kk, c.get(kk)))
         if c.get("twin"):
             ctx.count("twin build + inputs mutated afterwards")
-        ctx.count("call form %d" % (c.get("callform", 0) % 4))
+        ctx.count("call form %d%s" % (c.get("callform", 0) % 4, " / class constructor on unprepared data" if c.get("callform", 0) % 5 == 4 else ""))
         ctx.count("declared edges %s" % ("0" if not c["edges"] else "1-4" if len(c["edges"]) < 5 else "5+"))
         for a in c["eattrs"]:
             ctx.count("attr %s%s%s" % ("dense" if a["dense"] else "sparse", " default" if a["default"] is not None else "",
